@@ -18,6 +18,9 @@ DECOY_VALUES = {"';'": ";", '"&&"': "&&", "'||'": "||", "a\\;b": "a;b", "'#'": "
                 '"p\\";q"': 'p";q', '"u \\" && v \\" w"': 'u " && v " w', '"e \\" || f"': 'e " || f',
                 "中文": "中文", "'日本 ; 語'": "日本 ; 語", '"é && é"': "é && é", "é": "é"}
 
+# operands that set the status to 0 without running a program
+SILENT = {"assign": "VA%(i)d=v%(i)d", "assign2": "VA%(i)d=1 VB%(i)d=2", "export": "export VX%(i)d=1", "cd": "cd .", "alias": "alias zz%(i)d=vp_a"}
+
 _sb = None
 
 
@@ -40,8 +43,11 @@ def model(prog):
         if opd[0] == "s":
             ev.append(("vp_status", [str(opd[1]), opd[2]] + [DECOY_VALUES[d] for d in opd[3]]))
             st = opd[1]
-        else:
+        elif opd[0] == "q":
             ev.append(("vp_argv", ["Q%d" % i, str(st)]))
+            st = 0
+        else:
+            # a command that succeeds without running a program (assignment-only, builtin): no event, status 0
             st = 0
     return ev, st, ran
 
@@ -54,8 +60,10 @@ def render(prog, spacing):
             parts.append(sp[0] + op + sp[1])
         if opd[0] == "s":
             parts.append("vp_status %d %s" % (opd[1], opd[2]) + "".join(" " + d for d in opd[3]))
-        else:
+        elif opd[0] == "q":
             parts.append("vp_argv Q%d $?" % i)
+        else:
+            parts.append(SILENT[opd[1]] % {"i": i})
     return "".join(parts)
 
 
@@ -86,6 +94,8 @@ def judge(case):
         obs_names = [o[1][1] if o[0] == "vp_status" else o[1][0] for o in obs]
         k = 0
         for i, (op, opd) in enumerate(prog):
+            if opd[0] == "z":
+                continue        # leaves no event of its own
             name = opd[2] if opd[0] == "s" else "Q%d" % i
             did = k < len(obs_names) and obs_names[k] == name
             if did != ran[i]:
@@ -128,8 +138,11 @@ def gen_cases(tier, seed):
         prog = []
         for i in range(n):
             op = None if i == 0 else rng.choice(OPS)
-            if rng.random() < 0.3:
+            r = rng.random()
+            if r < 0.3:
                 opd = ("q",)
+            elif r < 0.42:
+                opd = ("z", rng.choice(sorted(SILENT)))
             else:
                 dec = tuple(rng.choice(DECOYS) for _ in range(rng.choice([0, 0, 1, 2])))
                 opd = ("s", rng.choice([0, 0, 1, 2, 7, 127, 255]), "m%d" % i, dec)
@@ -155,7 +168,8 @@ def run(tier, seed):
     rep = Report("C03", tier, seed)
     rep.rule = ("all programs p1 op .. pn, n<=6, codes {0,1}, ops {; && ||} exhaustively via -c "
                 "(and via script files, sampled in quick / all in thorough); random programs n<=12 with "
-                "codes {0,1,2,7,127,255}, quoted/escaped decoy operators as arguments and $? probes, "
+                "codes {0,1,2,7,127,255}, quoted/escaped decoy operators (ASCII and multi-byte) as arguments, $? probes and operands "
+                "that succeed without running a program (assignment-only, export, cd ., alias definition), "
                 "varied spacing, via -c and script.  Non-trivial = has at least one operator; distinct by "
                 "(program, mode, spacing).")
     rep.assumptions = ["helper programs log atomically to an O_APPEND file; file order = execution order "
